@@ -584,3 +584,20 @@ Section SpecListen.
   (* Profile.Switch never reports a switch (Static profiles; a Group with a single entry) *)
   Definition no_switch (ws : list (lwake A)) : bool := forallb (fun w => negb (lw_sw w)) ws.
 End SpecListen.
+
+(* ---- fragments whose low flag bits differ (set by hops on the way) ------------------------------------ *)
+Section SpecHop.
+  Context {A : Type}.
+  (* fragment j of the list arrives with the extra low bits xb j *)
+  Fixpoint hop_from (xb : nat -> Z) (j : nat) (fs : list (packet A)) : list (packet A) :=
+    match fs with [] => [] | f :: r => or_bits (xb j) f :: hop_from xb (S j) r end.
+  Definition hop (xb : nat -> Z) (fs : list (packet A)) : list (packet A) := hop_from xb 0 fs.
+  (* what cluster.done (Add ORs the low bits of every non-empty fragment into the first) and Flag.Clear make
+     of the fragments fs (in position order) of n *)
+  Definition delivered_of (fs : list (packet A)) (n : packet A) : packet A :=
+    mkPacket (p_id n) (p_job n) (p_dev n)
+      (mkFlags 0 0 0 (Z.lxor (fold_left Z.lor
+                                (map (fun f => f_bits (p_flags f)) (filter (fun f => negb (is_nil (p_data f))) (tl fs)))
+                                (f_bits (p_flags (hd n fs)))) 1))
+      0 (p_data n).
+End SpecHop.
